@@ -6871,6 +6871,24 @@ class SFTPServerHandler(SFTPHandler):
         if src and dst:
             read_to_end = read_from_length == 0
 
+            # Copy no further than where the file ends now. When both
+            # handles refer to the same file, the copy would otherwise
+            # feed on its own output and never reach the end.
+            try:
+                attrs = await self._server.convert_attrs(
+                    self._server.fstat(src))
+            except (SFTPError, NotImplementedError):
+                attrs = SFTPAttrs()
+
+            if attrs.size is not None:
+                available = max(attrs.size - read_from_offset, 0)
+
+                if read_to_end:
+                    read_to_end = False
+                    read_from_length = available
+                else:
+                    read_from_length = min(read_from_length, available)
+
             while read_to_end or read_from_length:
                 if read_to_end:
                     size = _COPY_DATA_BLOCK_SIZE
